@@ -107,6 +107,8 @@ LEVEL = {
     "C15": "model_checking",
     "C05": "model_checking",
     "C03": "model_checking",
+    "C06": "model_checking",
+    "C10": "model_checking",
     "C01": "model_checking",
     "C17": "model_checking",
     "C11": "model_checking",
@@ -144,6 +146,10 @@ ASSUMPTIONS = {
     "C03": MIRSYM_ASSUMPTIONS + [
         "Memfs operations are executed from their MIR with every rivia callee inlined automatically (lib/mirsym/rivia_index.py); std is modelled: Arc/RwLock/guards transparent (single thread), HashMap<PathBuf,_> as an association list with component-wise key equality decided by the solver, HashSet<String> as a list (iteration in insertion order), Box<dyn Write/ReadSeek> dispatched to MemfsFile, MemfsFile's Drop run at MIR drop terminators",
         "bounded: one call from a fixed small tree with symbolic arguments; histories longer than that, the traversal-based methods (copy, chmod/chown builders, entries, all_*) and concurrency are outside the claim",
+    ],
+    "C06": MIRSYM_ASSUMPTIONS + [
+        "same execution model as C03 (Memfs operations from MIR, std containers modelled); reference = byte vector per file",
+        "ASCII data (bytes == chars), <= 2 bytes per call, non-empty lines for the line helpers; Memfs only",
     ],
     "C01": MIRSYM_ASSUMPTIONS + [
         "only the second sentence of the statement is decided: a single-target call (mkfile, mkdir_p, mkdir_m, write_all, append_all, remove, symlink, set_cwd, move_p) that reports failure leaves the observable tree unchanged; the comparison with a full reference filesystem over histories is outside the claim",
